@@ -190,7 +190,7 @@ func genWorld(rng *core.Rng, i int, inEnvelope bool) world.WorldSpec {
 	s.SkipImages = rng.Chance(1, 6)
 	s.B, s.MaxLe = genBehaviour(rng, inEnvelope)
 	// order of the data group hash list in the security object: a SEQUENCE OF, ascending by custom only
-	s.HashOrder = core.Pick(rng, []int{0, 0, 0, 1, 2})
+	s.HashOrder = core.Pick(rng, []int{0, 0, 0, 1, 2, 3, 4})
 	s.ExtraCerts = core.Pick(rng, []int{0, 0, 0, 1})
 	s.ExtraFirst = rng.Bool()
 	s.EmbedCSCA = rng.Chance(1, 6)
